@@ -375,6 +375,28 @@ def rowRequestHTTP (st : St) (user : Name) (admin : Bool) (idp : Act) (op : RowO
     (quser : Option Name) (dsn table : Name) : Status :=
   rowRequestAs st user admin idp op (rowAuthUser user op abstract quser) dsn table
 
+/-! ### a row request that carries `?transaction=<id>` (transactions.go GetDatabase) -/
+
+/-- ReadRows / InsertRows / UpdateRows / DeleteRows (default row format) when the request names a live transaction:
+    `GetDatabase` returns the handle stored by BeginHandler for ANY request that carries the id — the DSN named in
+    the URL and the user who began the transaction are not compared — so database.Open (DSN exists, DSN-level
+    authorization) is skipped, `db.Restricted` is the flag of the DSN the transaction was begun on (`txRestricted`),
+    and `Authorized(session, session.User, dsnName, …)` is asked about the URL's DSN. The SQL then runs on the
+    transaction's database. -/
+def rowRequestTx (st : St) (user : Name) (admin : Bool) (op : RowOp) (txRestricted : Bool) (urlDsn table : Name) : Status :=
+  if txRestricted && !admin && !(authorized st user admin user urlDsn table [op.perm]) then .forbidden else .pass
+
+/-- security.go GrantPermissions is a read-modify-write of the whole record with no lock: the record is read
+    (`pHandle.Read`), THEN the request body is decoded and applied to that copy, then the whole copy is written back
+    (`pHandle.Update … id`). `grantStale` is the write-back of a grant whose read happened in the state `old` while the
+    store moved on to `cur` (only the case the harness drives: the record exists in both). -/
+def grantStale (old cur : List Rec) (u d t : Name) (keys : List Name) : List Rec :=
+  match lookup old u d t with
+  | [r] => match applyKeys r keys with
+    | some r' => cur.map fun x => if x.isFor u d t then r' else x
+    | none => cur
+  | _ => cur
+
 /-! ### histories -/
 
 inductive Op where
